@@ -219,7 +219,8 @@ def streams(rng, tier):
     # the same encodings with failed to_vec / to_vec_with calls in between, on the thread the operations run on: what a failed call leaves
     # behind (a scratch buffer, a counter) must not show in the bytes of the next value
     fops, fmops, k = [], [], 0
-    for i, (o, m) in enumerate(zip(ops, mops)):
+    step = max(1, len(ops) // 120000)          # the thorough corpus is ~10^6 values: a sample of it is enough for what precedes a call
+    for i, (o, m) in enumerate(zip(ops[::step], mops[::step])):
         if len(o) > 500:
             continue                  # long operations run on a thread of their own
         if i % 3 == 0:
